@@ -51,6 +51,29 @@ def lemma_isum_le(a: A[int, 1], lo: int, hi: int, m: int):
 
 
 @lemma(shared=True)
+def lemma_isum_ext(a: A[int, 1], b: A[int, 1], lo: int, hi: int):
+    requires(forall(lo, hi, lambda t: a[t] == b[t]))
+    ensures(ISUM(a, lo, hi) == ISUM(b, lo, hi))
+    decreases(hi - lo)
+    unfold(ISUM(a, lo, hi), ISUM(b, lo, hi))
+    if hi > lo:
+        lemma_isum_ext(a, b, lo, hi - 1)
+
+
+@lemma(shared=True)
+def lemma_isum_upd(a: A[int, 1], b: A[int, 1], lo: int, hi: int, idx: int):
+    """b = a except at idx:  ISUM(b) == ISUM(a) - a[idx] + b[idx]"""
+    requires(lo <= idx, idx < hi, forall(lo, hi, lambda t: implies(t != idx, a[t] == b[t])))
+    ensures(ISUM(b, lo, hi) == ISUM(a, lo, hi) - a[idx] + b[idx])
+    decreases(hi - lo)
+    unfold(ISUM(a, lo, hi), ISUM(b, lo, hi))
+    if idx < hi - 1:
+        lemma_isum_upd(a, b, lo, hi - 1, idx)
+    else:
+        lemma_isum_ext(a, b, lo, hi - 1)
+
+
+@lemma(shared=True)
 def lemma_fsum_ext(a: A[float, 1], b: A[float, 1], lo: int, hi: int):
     requires(forall(lo, hi, lambda t: real(a[t]) == real(b[t])))
     ensures(FSUM(a, lo, hi) == FSUM(b, lo, hi))
@@ -58,6 +81,17 @@ def lemma_fsum_ext(a: A[float, 1], b: A[float, 1], lo: int, hi: int):
     unfold(FSUM(a, lo, hi), FSUM(b, lo, hi))
     if hi > lo:
         lemma_fsum_ext(a, b, lo, hi - 1)
+
+
+@lemma(shared=True)
+def lemma_fsum_scale(a: A[float, 1], b: A[float, 1], c: float, lo: int, hi: int):
+    """b = c * a elementwise:  FSUM(b) == c * FSUM(a)"""
+    requires(finite(c), forall(lo, hi, lambda t: real(b[t]) == real(a[t]) * c))
+    ensures(FSUM(b, lo, hi) == FSUM(a, lo, hi) * c)
+    decreases(hi - lo)
+    unfold(FSUM(a, lo, hi), FSUM(b, lo, hi))
+    if hi > lo:
+        lemma_fsum_scale(a, b, c, lo, hi - 1)
 
 
 @lemma(shared=True)
